@@ -274,8 +274,18 @@ func (s *sshProxyService) Handle(ctx context.Context, conn net.Conn) error {
 		twrc := NewTypeWriterReadCloser(channel2)
 		var wrappedChannel2 io.ReadCloser = twrc
 
-		go copyFn(channel2, wrappedChannel)
+		// the end of the client's input is passed on as what it is (EOF, not a close of the
+		// channel): the backend may still have output to deliver, and the session ends when
+		// the backend's direction ends
+		go func() {
+			io.Copy(channel2, wrappedChannel)
+			channel2.CloseWrite()
+		}()
 		copyFn(channel, wrappedChannel2)
+
+		inflight.Lock()
+		channel2.Close()
+		inflight.Unlock()
 
 		s.c.Send(event.New(
 			services.EventOptions,
